@@ -60,7 +60,19 @@ func receiverVerdict(w, key []byte) (carried, computed []byte, err error) {
 		return nil, nil, fmt.Errorf("no AT_MAC after decoding: %v", gerr)
 	}
 	carried = append([]byte(nil), a.GetValue()...)
-	computed, err = libCalc(r, key)
+	// a receiver may compute the code more than once on the packet it decoded (e.g. first with a stale key): every
+	// computation with the same key gives the same value
+	wrong := append([]byte{0x77}, key...)
+	if _, err = libCalc(r, wrong); err != nil {
+		return
+	}
+	if computed, err = libCalc(r, key); err != nil {
+		return
+	}
+	again, err2 := libCalc(r, key)
+	if err2 != nil || !bytes.Equal(again, computed) {
+		return carried, computed, fmt.Errorf("two computations of AT_MAC on the same decoded packet with the same key differ: %x vs %x (%v)", computed, again, err2)
+	}
 	return
 }
 
